@@ -268,7 +268,8 @@ def run_shard(spec):
         # several constant tables in ONE program whose emitted rows or values coincide although element type,
         # length or constness differ: each must still be its own array (sharing / caching of constant data)
         word = spec['word']
-        seqs = [[1, 0, 1], [1, 1], [3], [0], [0, 0, 0], [1], [1, 0, 0], [2, 3, 5, 7], [0, 0, 0, 0, 0, 0, 0, 0, 1], [1, 0, 0, 0, 0, 0, 0, 0, 0], [65, 66], []]
+        seqs = [[1, 0, 1], [1, 1], [3], [0], [0, 0, 0], [1], [1, 0, 0], [2, 3, 5, 7], [0, 0, 0, 0, 0, 0, 0, 0, 1], [1, 0, 0, 0, 0, 0, 0, 0, 0], [65, 66], [],
+                [0] * 8, [0] * 9, [0] * 16, [0] * 17, [5] + [0] * 8, [0] * 8 + [5], [0] * 32]
         for order in (('int', 'byte', 'bool'), ('bool', 'byte', 'int'), ('byte', 'bool', 'int')):
             gl, body, exp = [], [], bytearray()
             idx = 0
